@@ -1046,5 +1046,5 @@ def deep_descs(prop, tier):
         for sc in (False, True):
             # the native route on a frame with four 4-way points: a handful of patterns only (the reference encoding of the
             # native operator is cubic in the graph size)
-            out.append(dict(func="active_edges_connected_crossable", frame=[3, 3], single_cycle=sc, prim=True, deep="crossing-loops"))
+            out.append(dict(func="active_edges_connected_crossable", frame=[3, 3], single_cycle=sc, prim=True, deep="crossing-loops", solo=True))
     return out
